@@ -21,7 +21,7 @@
 
 using namespace asl;
 
-enum RKind { K_FIXED, K_TEXT, K_JSON, K_FILE, K_ECHO, K_STREAM };
+enum RKind { K_FIXED, K_TEXT, K_JSON, K_FILE, K_ECHO, K_STREAM, K_CHUNKED };
 
 struct Plan
 {
@@ -41,7 +41,8 @@ struct Plan
 	std::string target2, path2;
 	int bodyForm;         // how the library client is given the request body: 0 ByteArray, 1 String, 2 File, 3 Var (JSON)
 	std::string bodyFile;
-	std::shared_ptr<jm::JV> bodyTree;   // body form 3: the tree the client turns into a Var
+	std::shared_ptr<jm::JV> bodyTree;
+	bool fileThenText = false;   // K_FILE: the handler puts the file and then replaces it by a text body   // body form 3: the tree the client turns into a Var
 	Plan() : kind(K_FIXED), code(200), rangeB(-1), rangeE(-1), redirect(0), bodyForm(0) {}
 };
 
@@ -94,9 +95,10 @@ struct Srv : public HttpServer
 		case K_FIXED: res.put(ByteArray((const byte*)p.resBody.data(), (int)p.resBody.size())); break;
 		case K_TEXT: res.put(String(p.resBody.c_str(), (int)p.resBody.size())); break;
 		case K_JSON: res.put(jm::toVar(p.json)); break;
-		case K_FILE: res.put(File(p.file.c_str())); break;
+		case K_FILE: res.put(File(p.file.c_str())); if (p.fileThenText) res.put(String(p.resBody.c_str(), (int)p.resBody.size())); break;   // a handler may replace a file body by a text
 		case K_ECHO: res.put(req.body()); break;
 		case K_STREAM: for (auto& ch : p.streamChunks) res.write(ch.data(), (int)ch.size()); break;
+		case K_CHUNKED: res.setHeader("Transfer-Encoding", "chunked"); for (auto& ch : p.streamChunks) res.write(ch.data(), (int)ch.size()); break;   // the handler announces the chunked framing itself
 		}
 	}
 };
@@ -215,6 +217,7 @@ static void genResponseSide(vf::Rng& r, Plan& p, int forceKind = -1)
 		break;
 	}
 	case K_ECHO: p.resBody = p.reqBody; break;
+	case K_CHUNKED: { int nc = r.range(1, 4); for (int i = 0; i < nc; i++) { std::string ch = randBytes(r, r.chance(0.3) ? r.range(120000, 300000) : r.range(1, 3000)); p.streamChunks.push_back(ch); p.resBody += ch; } break; }
 	case K_STREAM: { int nc = r.range(1, 5); for (int i = 0; i < nc; i++) { std::string ch = randBytes(r, r.chance(0.2) ? r.range(120000, 140000) : r.range(1, 3000)); p.streamChunks.push_back(ch); p.resBody += ch; } break; }
 	}
 }
@@ -332,7 +335,13 @@ static void runLib(vf::Ctx& c, int nreq, int nthreads, int forceKind)
 			plans[i].path2 = "/final/" + token(c.rng, 6);
 			plans[i].target2 = plans[i].path2;
 		}
-		if (plans[i].kind == K_FILE && c.rng.chance(0.4) && plans[i].resBody.size() >= 2) {
+		if (plans[i].kind == K_FILE && c.rng.chance(0.12)) {
+			Plan& p = plans[i];
+			p.fileThenText = true;
+			p.resBody = "replaced: " + token(c.rng, 12);
+			c.count("lib.file_body_replaced_by_text");
+		}
+		else if (plans[i].kind == K_FILE && c.rng.chance(0.4) && plans[i].resBody.size() >= 2) {
 			int n = (int)plans[i].resBody.size();
 			plans[i].rangeB = c.rng.range(0, n - 2);
 			plans[i].rangeE = c.rng.range(plans[i].rangeB + 1, n - 1);
@@ -373,6 +382,9 @@ static void runLib(vf::Ctx& c, int nreq, int nthreads, int forceKind)
 static void mode_lib(vf::Ctx& c) { runLib(c, c.rng.range(1, 4), 1, -1); }
 static void mode_concurrent(vf::Ctx& c) { int t = c.rng.chance(0.3) ? 64 : c.rng.range(2, 32); runLib(c, t + c.rng.range(0, 40), t, -1); }
 static void mode_stream(vf::Ctx& c) { runLib(c, c.rng.range(1, 3), 1, K_STREAM); }
+// the handler sets Transfer-Encoding: chunked itself and writes 1-3 pieces (the client sees the end of such a body only when the server's
+// 10 s connection loop gives up, so this mode has few cases)
+static void mode_chunked(vf::Ctx& c) { runLib(c, 1, 1, K_CHUNKED); }
 
 // body sizes: one case = one size, both directions (POST echo)
 static void mode_sizes(vf::Ctx& c)
@@ -581,6 +593,7 @@ int main(int argc, char** argv)
 	R.add("concurrent", mode_concurrent, "2..64 concurrent library clients, each must get its own response");
 	R.add("sizes", mode_sizes, "echo of bodies of every size");
 	R.add("ranges", mode_ranges, "every byte range of files of size 1..40, sampled larger");
+	R.add("chunked", mode_chunked, "handler-announced chunked responses written in pieces of up to 300 KB");
 	R.add("stream", mode_stream, "handler streams the body with write() and sets no length");
 	R.add("raw", mode_raw, "raw socket client: chunked, fragmented, pipelined requests");
 	R.setup = [](const vf::Options& o) { g_scratch = o.out; };
